@@ -1,5 +1,5 @@
 /-
-  C07 — concurrent use is free of data races.   (claimed PARTIAL: see below)
+  C07 — concurrent use is free of data races.   (claimed PARTIAL by nature: see below)
 
   What a Lean model can carry: the access discipline — which fields a step reads and
   writes, under which locks.  What it cannot exhibit: hardware/compiler reordering, torn
@@ -9,29 +9,29 @@
   On the implementation side the Go race detector decides the property for the executions
   it sees (real goroutines, real sync.Mutex, all six types, orders 4 and 64).
 
-  Status: the FULL discipline statement is kept as a definition and NOT yet proved (its
-  write-frame half is missing). Proved: MUTUAL EXCLUSION of every mutex in every reachable
-  configuration (`C07_mutual_exclusion`); read-only operations write nothing (Search/NewScanner: `C03_search_readonly_partial`,
-  cursor operations: `C04_cursor_readonly_partial`), the root pointer is only replaced by
-  steps of threads that hold the tree-level mutex at that park position (`upRoot`,
-  Delete's frames), and every thread holds exactly the locks of its program position.
+  PROVED, for every initial tree satisfying the structural invariant, every family of
+  disciplined client programs and every schedule:
+    * MUTUAL EXCLUSION of every mutex in every reachable configuration (`C07_mutual_exclusion`);
+    * the WRITE FRAME (`C07_write_frame`): a step of thread `t` leaves the own fields (keys or
+      separators, values, `next`, identities of the children) of every node that existed
+      before and whose mutex `t` does not hold during the step exactly as they were, and
+      moves the root pointer only if `t` holds `rootMutex`.  `stepHeld` is what the thread
+      held when it parked plus the one mutex it is granted; after that acquisition a step
+      only releases (`RelOnly`), so this is the largest set it ever holds in the step;
+    * hence (`C07_access_discipline`) two writes, or a write and the facts any other thread
+      relies on (`KontOk`/`CursorOk` speak only of nodes the thread holds), never concern
+      the same node without the mutex changing hands in between.
+  The READ frame (a step's outcome depends only on nodes it holds) is not stated as a
+  theorem; it is visible in the model (every block reads through `find` of an identity it
+  holds or of a child/next pointer of such a node).
 -/
 import Gobptree.Proofs.ConcOwner
+import Gobptree.Proofs.CSFinal
 
 namespace Gobptree.Conc
 open Gobptree
 
 variable {K V : Type}
-
-/-- FULL statement of the discipline (not proved): mutual exclusion of every mutex, and
-    the write frame — a step of thread `t` leaves every node that `t` does not hold, and the
-    root pointer unless `t` holds the tree-level mutex, unchanged. -/
-def C07_access_discipline_statement : Prop :=
-  ∀ (P : Params Nat) (tree : Tree Nat Nat) (progs : List (List (COp Nat Nat))) (c c' : Config Nat Nat) (t : Nat),
-    Reachable (Config.init P tree progs) c → c.dead = false → c.step t = some c' →
-    (∀ l, ((c'.owner.filter (fun p => p.1 = l)).length ≤ 1)) ∧
-    (∀ id, (∀ th, c'.threads[t]? = some th → Lk.node id ∉ th.held) →
-      (∀ th, c.threads[t]? = some th → Lk.node id ∉ th.held) → c'.tree.find id = c.tree.find id)
 
 theorem pair_eq_of_nodup_fst {α β : Type} (l : List (α × β)) (h : (l.map Prod.fst).Nodup) (a : α) (b1 b2 : β)
     (h1 : (a, b1) ∈ l) (h2 : (a, b2) ∈ l) : b1 = b2 := by
@@ -86,8 +86,41 @@ theorem C07_leaf_written_under_leaf_lock_partial (key : K) (f : Option V → V) 
     Lk.node leaf ∈ kontHeld (Kont.upCallback key f leaf arg) := by
   simp [kontHeld]
 
+/-- **C07 (write frame).** In every reachable configuration, a step of thread `t` leaves
+    unchanged the own fields of every node that existed before the step and whose mutex the
+    thread does not hold during it, and the root pointer (and height) unless it holds
+    `rootMutex`. -/
+theorem C07_write_frame (P : Params K) (tree : Tree K V) (progs : List (List (COp K V)))
+    (ht : TreeOk none tree) (ho : tree.order = P.order) (hp : PadOk P) (hd : Disciplined progs)
+    (c c' : Config K V) (t : Nat) (hr : Reachable (Config.init P tree progs) c) (hs : c.step t = some c') :
+    ∃ th, c.threads[t]? = some th ∧
+      (∀ id, id < c.tree.nextId → Lk.node id ∉ stepHeld th → c'.tree.look id = c.tree.look id) ∧
+      (Lk.tree ∉ stepHeld th → c'.tree.rootId = c.tree.rootId ∧ c'.tree.depth = c.tree.depth) := by
+  obtain ⟨_, th, hth, hf⟩ := step_cinv blocks_ok c c' t hs (reachable_cinv P tree progs ht ho hp hd c hr)
+  exact ⟨th, hth, hf.nodes, hf.root⟩
+
+/-- **C07 (access discipline).** Mutual exclusion and the write frame together: whatever a
+    step of thread `t` writes is guarded by a mutex that `t` holds and, by exclusion, that no
+    other thread holds — in particular every node another thread holds keeps its fields. -/
+theorem C07_access_discipline (P : Params K) (tree : Tree K V) (progs : List (List (COp K V)))
+    (ht : TreeOk none tree) (ho : tree.order = P.order) (hp : PadOk P) (hd : Disciplined progs)
+    (c c' : Config K V) (t j : Nat) (b : Thread K V) (hr : Reachable (Config.init P tree progs) c)
+    (hs : c.step t = some c') (hj : c.threads[j]? = some b) (hne : j ≠ t) :
+    ∀ id, Lk.node id ∈ b.held → c'.tree.look id = c.tree.look id := by
+  have hinv := reachable_cinv P tree progs ht ho hp hd c hr
+  obtain ⟨_, th, hth, hf⟩ := step_cinv blocks_ok c c' t hs hinv
+  obtain ⟨th', hth', hen, _⟩ := step_shape hs
+  rw [hth] at hth'
+  cases hth'
+  intro id hid
+  have hbm : b ∈ c.threads := List.mem_of_getElem? hj
+  obtain ⟨sh, hsh⟩ := thread_present hinv.s.tree.ids hinv.s.tree.chain (hinv.s.cfg b hbm) (hinv.s.threads b hbm) id (Or.inl hid)
+  exact hf.nodes id (look_lt_nextId hinv.s.tree.ids hsh) (stepHeld_excl hinv.s.owner hth hj hne hen hid)
+
 end Gobptree.Conc
 
 #print axioms Gobptree.Conc.C07_mutual_exclusion
 #print axioms Gobptree.Conc.C07_root_written_under_tree_lock_partial
 #print axioms Gobptree.Conc.C07_leaf_written_under_leaf_lock_partial
+#print axioms Gobptree.Conc.C07_write_frame
+#print axioms Gobptree.Conc.C07_access_discipline
